@@ -562,3 +562,246 @@ Proof.
   - intros pc k H. cbn [fits] in H. intuition.
   - intros pc t' H. ok_split H H1 H2. split; [destruct pc; exact H1 | exact H2].
 Qed.
+
+(* ---- nodes created by primary() ---- *)
+
+Lemma M_of_prim e :
+  ret_lvl e = LPrimary ->
+  (forall pc k rest, fits pc k e -> ok pc e (hd_tok rest) = true -> Prim (flat e ++ rest) (e, rest)) ->
+  M e.
+Proof.
+  intros Hret HP k pc rest R Hf Ho Hpc HF. rewrite Hret in HF.
+  eapply parses_via; [apply parses_prim; eapply HP; eassumption | exact HF].
+Qed.
+
+Lemma M_num s : M (ENum s).
+Proof. apply M_of_prim; [reflexivity|]. intros. apply prim_num. Qed.
+Lemma M_str s : M (EStr s).
+Proof. apply M_of_prim; [reflexivity|]. intros. apply prim_str. Qed.
+Lemma M_regex s : M (ERegex s).
+Proof. apply M_of_prim; [reflexivity|]. intros. apply prim_regex. Qed.
+Lemma M_strregex s : M (EStrRegex s).
+Proof. intros k pc rest R Hf. contradiction. Qed.
+
+Lemma M_var s : M (EVar s).
+Proof.
+  apply M_of_prim; [reflexivity|]. intros pc k rest _ Ho.
+  unfold ok in Ho. cbn [okn] in Ho. apply leb_le in Ho.
+  apply (prim_var_pc pc). destruct pc; exact Ho.
+Qed.
+
+Lemma M_unary op v : M v -> M (EUnary op v).
+Proof.
+  intros Mv. apply M_of_prim; [reflexivity|]. intros pc k rest Hf Ho.
+  cbn [fits] in Hf. ok_split Ho Hc Okv. cbn [flat app].
+  apply prim_unary. apply (M_closed _ Mv LPow false); try assumption; discriminate.
+Qed.
+
+Lemma M_group x : M x -> M (EGroup x).
+Proof.
+  intros Mx. apply M_of_prim; [reflexivity|]. intros pc k rest Hf _.
+  cbn [fits] in Hf. cbn [flat app]. rewrite <- app_assoc. cbn [app].
+  apply prim_group.
+  pose proof (flat_start _ _ _ Hf) as Hst.
+  eapply exprlist_first; [apply start_no_stop; exact Hst | | apply exprlist_nil; reflexivity].
+  apply (M_closed _ Mx LExpr false); try assumption; try discriminate.
+  - apply ok_zero. reflexivity.
+  - cbn. lia.
+Qed.
+
+Lemma M_field i : M i -> M (EField i).
+Proof.
+  intros Mi. apply M_of_prim; [reflexivity|]. intros pc k rest Hf Ho.
+  cbn [fits] in Hf. ok_split Ho Hc Oki. cbn [flat app].
+  apply prim_field; [|exact Hc]. apply (M_prim _ Mi); assumption.
+Qed.
+
+Lemma M_index a idx : Forall M idx -> M (EIndex a idx).
+Proof.
+  intros Mi. apply M_of_prim; [reflexivity|]. intros pc k rest Hf _.
+  cbn [fits] in Hf. destruct Hf as [Hne Hf]. destruct idx as [|x es]; [congruence|].
+  cbn [flat app]. rewrite <- app_assoc. cbn [app].
+  apply prim_index. apply exprlist_all; [reflexivity | reflexivity | exact Mi | exact Hf].
+Qed.
+
+Lemma M_in_multi x y es a : Forall M (x :: y :: es) -> M (EIn (x :: y :: es) a).
+Proof.
+  intros Mi. apply M_of_prim; [reflexivity|]. intros pc k rest Hf _.
+  cbn [flat app]. rewrite <- app_assoc. cbn [app].
+  apply prim_multi_in. apply exprlist_all; [reflexivity | reflexivity | exact Mi | exact Hf].
+Qed.
+
+Lemma uargs_tail rest : forall es, Forall M es -> all_fit (fits false 0) es ->
+  UArgs false (tailc es ++ TRParen :: rest) (es, TRParen :: rest).
+Proof.
+  induction es as [|x es IH]; intros HM Hf.
+  - apply uargs_nil.
+  - inversion HM as [|? ? Hx HMs]; subst. destruct Hf as [Hfx Hfs].
+    cbn [tailc flat_map app]. rewrite <- app_assoc.
+    pose proof (flat_start _ _ _ Hfx) as Hst.
+    eapply uargs_next; [|apply IH; assumption].
+    rewrite start_skip_nl by exact Hst.
+    assert (Hz : tok_cont false (hd_tok (flat_map (fun x0 => TComma :: flat x0) es ++ TRParen :: rest)) = 0)
+      by (destruct es; reflexivity).
+    apply (M_closed _ Hx LExpr false); try assumption; try discriminate.
+    + apply ok_zero. exact Hz.
+    + cbn [rk]. fold (tailc es). unfold tailc. lia.
+Qed.
+
+Lemma M_ucall n args : Forall M args -> M (EUserCall n args).
+Proof.
+  intros Ma. apply M_of_prim; [reflexivity|]. intros pc k rest Hf _.
+  cbn [fits] in Hf. cbn [flat app]. rewrite <- app_assoc. cbn [app].
+  apply prim_ucall. destruct args as [|x es]; [apply uargs_nil|].
+  inversion Ma as [|? ? Hx HMs]; subst. destruct Hf as [Hfx Hfs].
+  rewrite commas_cons, <- app_assoc.
+  pose proof (flat_start _ _ _ Hfx) as Hst.
+  eapply uargs_first; [| | apply uargs_tail; assumption].
+  - destruct (start_cons _ Hst) as (t0 & r0 & -> & Ht0). cbn [app]. destruct t0; try exact I; discriminate.
+  - assert (Hz : tok_cont false (hd_tok (tailc es ++ TRParen :: rest)) = 0) by (destruct es; reflexivity).
+    apply (M_closed _ Hx LExpr false); try assumption; try discriminate.
+    + apply ok_zero. exact Hz.
+    + cbn [rk]. lia.
+Qed.
+
+Lemma M_prim_pc e : M e -> forall pc rest,
+  fits pc 13 e -> ok pc e (hd_tok rest) = true -> Prim (flat e ++ rest) (e, rest).
+Proof.
+  intros HM pc rest Hf Hok. apply (prim_of_parses pc).
+  apply HM; try assumption; try discriminate.
+  rewrite (fits_prim _ _ Hf). apply PF_done.
+Qed.
+
+(* on an lvalue, optionalLValue() does what primary() does *)
+Lemma optlv_of_prim x rest : is_lvalue x = true ->
+  Prim (flat x ++ rest) (x, rest) -> OptLv (flat x ++ rest) (Some x, rest).
+Proof.
+  intros Hlv [[|n] H]; [discriminate|]. exists (S n).
+  destruct x; try discriminate; cbn [flat app] in *; cbn [primary opt_lvalue] in *.
+  - (* $i *)
+    destruct (primary n None (flat x ++ rest)) as [[i' r']| | |] eqn:E; cbn [pbind] in *; try discriminate.
+    destruct r' as [|t r'']; [congruence|]. destruct t; try congruence.
+  - (* variable *)
+    destruct rest as [|t r']; [exact (f_equal _ eq_refl)|].
+    destruct t; try reflexivity.
+    + destruct (exprlist n false true r') as [[idx r2]| | |]; cbn [pbind] in *; try discriminate.
+      destruct idx; try discriminate. destruct (expect_rbracket r2); cbn [pbind] in *; discriminate.
+    + destruct sp; [reflexivity|].
+      destruct (ucall_args n true r') as [[args r2]| | |]; cbn [pbind] in *; try discriminate.
+      destruct (expect_rparen r2); cbn [pbind] in *; discriminate.
+  - (* a[...] *)
+    rewrite <- app_assoc in *. cbn [app] in *.
+    destruct (exprlist n false true _) as [[idx' r2]| | |]; cbn [pbind] in *; try discriminate.
+    destruct idx'; try discriminate. destruct (expect_rbracket r2); cbn [pbind] in *; congruence.
+Qed.
+
+Lemma M_preincr op x : M x -> M (EIncr op true x).
+Proof.
+  intros Mx. apply M_of_prim; [reflexivity|]. intros pc k rest Hf Ho.
+  cbn [flat app]. apply prim_preincr.
+  assert (Hlv : is_lvalue x = true) by (destruct x; cbn [fits] in Hf; try contradiction; reflexivity).
+  apply optlv_of_prim; [exact Hlv|].
+  apply (M_prim_pc _ Mx pc).
+  - destruct x; try discriminate; cbn [fits] in Hf |- *; exact Hf.
+  - exact Ho.
+Qed.
+
+Lemma M_postincr_field op i : M i -> M (EIncr op false (EField i)).
+Proof.
+  intros Mi k pc rest R Hf Ho Hpc HF.
+  cbn [fits] in Hf. destruct Hf as [Fi Oki]. cbn [ret_lvl] in HF.
+  eapply parses_via; [|exact HF]. apply parses_prim.
+  cbn [flat app]. rewrite <- app_assoc. cbn [app].
+  apply prim_field_postincr.
+  apply (M_prim _ Mi); [exact Fi|].
+  cbn [hd_tok]. rewrite <- Oki. apply ok_same_cont; destruct op; reflexivity.
+Qed.
+
+Lemma M_postincr_lv op x : (match x with EVar _ | EIndex _ _ => True | _ => False end) ->
+  M x -> M (EIncr op false x).
+Proof.
+  intros Hx Mx k pc rest R Hf Ho Hpc HF.
+  assert (Hlv : is_lvalue x = true) by (destruct x; try contradiction; reflexivity).
+  assert (Hret : ret_lvl (EIncr op false x) = LPostIncr) by (destruct x; try contradiction; reflexivity).
+  rewrite Hret in HF.
+  cbn [flat]. rewrite <- app_assoc. cbn [app].
+  apply Mx; try assumption.
+  - destruct x; try contradiction; cbn [fits] in Hf |- *; [exact I | apply Hf].
+  - destruct x; try contradiction; [|reflexivity]. destruct op, pc; reflexivity.
+  - rewrite (is_lvalue_ret _ Hlv).
+    eapply PF_step; [reflexivity | | exact HF].
+    apply aft_postincr; [destruct op; auto | exact Hlv].
+Qed.
+
+(* ---- all trees ---- *)
+Definition M' (e : expr) : Prop := M e /\ match e with EField i => M i | _ => True end.
+
+Lemma Forall_M' es : Forall M' es -> Forall M es.
+Proof. intros H. eapply Forall_impl; [|exact H]. intros a [Ha _]. exact Ha. Qed.
+
+Lemma M_unsupported e : (forall pc k, ~ fits pc k e) -> M e.
+Proof. intros H k pc rest R Hf. exfalso. eapply H. exact Hf. Qed.
+
+Theorem parse_printed_all : forall e, M' e.
+Proof.
+  induction e using expr_ind'; unfold M'.
+  - split; [apply M_num | exact I].
+  - split; [apply M_str | exact I].
+  - split; [apply M_strregex | exact I].
+  - split; [apply M_regex | exact I].
+  - destruct IHe as [Mi _]. split; [apply M_field; exact Mi | exact Mi].
+  - split; [apply M_unsupported; intros pc k H; exact H | exact I].
+  - split; [apply M_var | exact I].
+  - split; [apply M_index; apply Forall_M'; assumption | exact I].
+  - split; [|exact I]. apply Forall_M' in H.
+    destruct idx as [|x [|y es]].
+    + apply M_unsupported; intros pc k Hf; exact Hf.
+    + inversion H; subst. apply M_in1; assumption.
+    + apply M_in_multi; assumption.
+  - destruct IHe as [Mv _]. split; [apply M_unary; exact Mv | exact I].
+  - destruct IHe1 as [Ml _], IHe2 as [Mr _]. split; [|exact I].
+    destruct op.
+    + eapply M_addsub; eauto.
+    + eapply M_addsub; eauto.
+    + eapply M_muldivmod; eauto.
+    + eapply M_muldivmod; eauto 6.
+    + eapply M_muldivmod; eauto 6.
+    + apply M_pow; assumption.
+    + apply (M_cmp BEq TEquals); auto.
+    + apply (M_cmp BNe TNotEquals); auto.
+    + apply (M_cmp BLt TLess); auto.
+    + apply (M_cmp BLe TLte); auto.
+    + apply (M_cmp BGt TGreater); auto.
+    + apply (M_cmp BGe TGte); auto.
+    + eapply M_match; eauto.
+    + eapply M_match; eauto.
+    + apply M_and; assumption.
+    + apply M_or; assumption.
+    + apply M_concat; assumption.
+  - destruct IHe1 as [Mc _], IHe2 as [Mt _], IHe3 as [Mf _]. split; [apply M_cond; assumption | exact I].
+  - destruct IHe1 as [Ml _], IHe2 as [Mr _]. split; [apply M_assign; assumption | exact I].
+  - destruct IHe1 as [Ml _], IHe2 as [Mr _]. split; [apply M_augassign; assumption | exact I].
+  - destruct IHe as [Mx Mi]. split; [|exact I]. destruct pre.
+    + apply M_preincr; exact Mx.
+    + destruct e; try (apply M_unsupported; intros pc k Hf; exact Hf).
+      * apply M_postincr_field; exact Mi.
+      * apply M_postincr_lv; [exact I | exact Mx].
+      * apply M_postincr_lv; [exact I | exact Mx].
+  - split; [apply M_unsupported; intros pc k Hf; exact Hf | exact I].
+  - split; [apply M_ucall; apply Forall_M'; assumption | exact I].
+  - split; [apply M_unsupported; intros pc k Hf; exact Hf | exact I].
+  - split; [apply M_unsupported; intros pc k Hf; exact Hf | exact I].
+  - destruct IHe as [Mx _]. split; [apply M_group; exact Mx | exact I].
+Qed.
+
+(* the general lemma of DESIGN §4 C04: a writing that respects the table, followed by a token that
+   none of the still-open level functions consumes, is read back as exactly the tree written *)
+Theorem parse_printed : forall e k pc rest,
+  fits pc (rk k) e -> ok pc e (hd_tok rest) = true -> (pc = true -> k <> LGetline) ->
+  tok_cont pc (hd_tok rest) <= rk k ->
+  exists n0, forall n, n0 <= n -> p_lv n k pc None (flat e ++ rest) = POk (e, rest).
+Proof.
+  intros e k pc rest Hf Ho Hpc Hc.
+  destruct (M_closed e (proj1 (parse_printed_all e)) k pc rest Hf Ho Hpc Hc) as [n0 H].
+  exists n0. intros n Hn. eapply p_lv_mono; eassumption.
+Qed.
